@@ -202,6 +202,48 @@ impl Sink {
         }
     }
 
+    /// An empty sink for a forked child working on one group of this sink's run.
+    pub fn child(&self) -> Sink {
+        let mut c = Sink::new(&self.prop, self.tier, 0, 1, None, None, 3600);
+        c.seed = self.seed;
+        c
+    }
+
+    /// Merge what a child's sink reported (`finish()` value).
+    pub fn absorb(&mut self, v: &Value) {
+        if let Some(m) = v["counters"].as_object() {
+            for (k, n) in m {
+                self.count(k, n.as_u64().unwrap_or(0));
+            }
+        }
+        if let Some(m) = v["outcomes"].as_object() {
+            for (k, n) in m {
+                self.outcome(k, n.as_u64().unwrap_or(0));
+            }
+        }
+        let mut stored: BTreeMap<String, u64> = BTreeMap::new();
+        if let Some(a) = v["violations"].as_array() {
+            for x in a {
+                let sig = x["sig"].as_str().unwrap_or("?").to_string();
+                *stored.entry(sig.clone()).or_insert(0) += 1;
+                self.violation(&sig, x["detail"].as_str().unwrap_or("").to_string(), x["replay"].clone());
+            }
+        }
+        if let Some(m) = v["violation_counts"].as_object() {
+            for (k, n) in m {
+                let extra = n.as_u64().unwrap_or(0).saturating_sub(*stored.get(k).unwrap_or(&0));
+                *self.viol_count.entry(k.clone()).or_insert(0) += extra;
+            }
+        }
+        if let Some(a) = v["samples"].as_array() {
+            for x in a {
+                let key = x["kind"].as_str().unwrap_or("?").to_string();
+                let val = x["case"].clone();
+                self.sample(&key, || val);
+            }
+        }
+    }
+
     pub fn finish(self) -> Value {
         json!({
             "prop": self.prop,
@@ -259,8 +301,13 @@ pub fn fnv(b: &[u8]) -> u64 {
 
 /// Silence the default panic hook (panics inside rbpf are observations, not noise) and
 /// run `f` under catch_unwind; returns Err(message) on panic.
+static CATCH_DEPTH: std::sync::atomic::AtomicUsize = std::sync::atomic::AtomicUsize::new(0);
+
 pub fn catch<T>(f: impl FnOnce() -> T) -> Result<T, String> {
-    match std::panic::catch_unwind(std::panic::AssertUnwindSafe(f)) {
+    CATCH_DEPTH.fetch_add(1, std::sync::atomic::Ordering::Relaxed);
+    let r = std::panic::catch_unwind(std::panic::AssertUnwindSafe(f));
+    CATCH_DEPTH.fetch_sub(1, std::sync::atomic::Ordering::Relaxed);
+    match r {
         Ok(v) => Ok(v),
         Err(e) => {
             let msg = if let Some(s) = e.downcast_ref::<&str>() {
@@ -275,8 +322,14 @@ pub fn catch<T>(f: impl FnOnce() -> T) -> Result<T, String> {
     }
 }
 
+/// Panics inside `catch` are observations of the subject and stay silent; a panic anywhere
+/// else is a harness bug and is printed.
 pub fn quiet_panics() {
-    std::panic::set_hook(Box::new(|_| {}));
+    std::panic::set_hook(Box::new(|info| {
+        if CATCH_DEPTH.load(std::sync::atomic::Ordering::Relaxed) == 0 {
+            eprintln!("HARNESS PANIC: {info}");
+        }
+    }));
 }
 
 /// Short classifier for a panic message (used in signatures).
